@@ -327,7 +327,7 @@ func TestC09Binary(t *testing.T) {
 		}
 	}
 	connSeq := 0
-	rapid.Check(t, func(rt *rapid.T) {
+	check(t, func(rt *rapid.T) {
 		nHosts := rapid.IntRange(1, 2).Draw(rt, "nHosts")
 		conns := map[int][]*wsAgent{}
 		current := map[int]*wsAgent{}
